@@ -664,6 +664,13 @@ class LexScale(Sub):
                     v != want if isinstance(v, int) else (n <= 15 or n > 300 or float(want) != v)):
                 shown = ('an integer of %d bits' % v.bit_length()) if isinstance(v, int) and not isinstance(v, bool) else repr(env.out(r) if not isinstance(v, int) else v)[:60]
                 bad('the %d-digit literal %s... evaluates to %s, not to the number it spells' % (n, digits[:12], shown), 'the %d-digit integer' % n, shown)
+            if n <= 320 and pat == '9':
+                # a small number is a long fraction (there is no exponent notation): 0.00...01 with n fraction digits is 10^-n
+                for f in ('0.' + '0' * (n - 1) + '1', '.' + '0' * (n - 1) + '25'):
+                    o = env.evo(f)
+                    w = Fraction(f if f[0] != '.' else '0' + f)
+                    if o[0] != 'v' or not isinstance(o[1], float) or abs(Fraction(o[1]) - w) > max(w / 2 ** 52, Fraction(5e-324)):
+                        bad('the literal %s...%s with %d zeros after the point evaluates to %s, expected %r' % (f[:6], f[-3:], n - 1, repr(o)[:60], float(w)), float(w), o)
             if n <= 300:
                 f = '0.' + digits
                 o = env.evo(f)
